@@ -7,6 +7,7 @@ import (
 	"go/types"
 	"regexp"
 	"sort"
+	"strconv"
 	"strings"
 
 	"golang.org/x/tools/go/ssa"
@@ -1201,6 +1202,14 @@ func c03Keys(c *Ctx) {
 				case *ssa.BinOp:
 					if x.Op != token.ADD {
 						return
+					}
+					// a token produced by the printer itself (a recursive call) is continued with a suffix: `var:cfg` + ".rate"
+					if cl, ok := x.X.(*ssa.Call); ok && staticFn(cl) == fn {
+						if sv, ok := constString(x.Y); ok && sv != "" && !(strings.HasPrefix(sv, " ") || strings.HasPrefix(sv, ")")) {
+							n++
+							k++
+							c.ob("C03-R9", fnKey(fn)+"#var-token-is-a-variable-name-"+itoa(k), x.Pos(), false, "the printer appends "+strconv.Quote(sv)+" to a key it produced itself: a `var:` token grows into a dotted path (`var:cfg.rate`) that the killer, which looks for `var:<name>` followed by a delimiter, does not recognise - reassigning cfg leaves `(Add var:cfg.rate int:1)` in force and a later identical expression reuses the value computed from the old object")
+						}
 					}
 					if sv, ok := constString(x.X); ok && strings.HasSuffix(sv, "var:") {
 						n++
